@@ -3,7 +3,7 @@
 \* Measured: 198,662 distinct states, depth 40.
 CONSTANTS
   NV = 4
-  Power <- DrvUnitPower
+  PowerOf <- DrvPowerOf
   MaxVal = 1
   NValid = 1
   MaxRound = 0
